@@ -101,7 +101,9 @@ type Case struct {
 	Ops []SOp `json:"ops,omitempty"`
 	// graph
 	Opts     []GOpt     `json:"opts,omitempty"`
-	Paradigm string     `json:"paradigm,omitempty"` // invoke | stream | collect | transform
+	Opts2    []GOpt     `json:"opts2,omitempty"`     // the call options of the runs that resume an interrupted run (when HasOpts2)
+	HasOpts2 bool       `json:"has_opts2,omitempty"` // false: every run of the sequence is called with Opts
+	Paradigm string     `json:"paradigm,omitempty"`  // invoke | stream | collect | transform
 	Dag      bool       `json:"dag,omitempty"`
 	Chain    bool       `json:"chain,omitempty"` // the top level is built with compose.NewChain (AppendLambda / AppendParallel / AppendGraph / AppendPassthrough)
 	Stages   [][]*GNode `json:"stages,omitempty"`
